@@ -8,9 +8,11 @@ import (
 	"strings"
 
 	"github.com/zenon-network/go-zenon/chain"
+	"github.com/zenon-network/go-zenon/chain/genesis"
 	g "github.com/zenon-network/go-zenon/chain/genesis/mock"
 	"github.com/zenon-network/go-zenon/chain/nom"
 	"github.com/zenon-network/go-zenon/common"
+	"github.com/zenon-network/go-zenon/common/db"
 	"github.com/zenon-network/go-zenon/common/types"
 	"github.com/zenon-network/go-zenon/verifier"
 	"github.com/zenon-network/go-zenon/vm/constants"
@@ -482,9 +484,75 @@ func sporkScenario(c *Ctx, id int) {
 			probe(uint64(int64(s.enf) + d))
 		}
 	}
+	// an older binary on this ledger: for every enforced spork in turn, the binary's list of implemented sporks is taken to
+	// be without it (chain.Init and momentum insertion stop the node when the report is non-empty): the report on the store
+	// of EVERY height from the enforcement height to the frontier must name it — not only on the enforcement momentum itself
+	for _, s := range sporks {
+		if s.bound == nil || !s.created || s.enf == 0 || s.recorded == 0 || n.Height() < s.enf {
+			continue
+		}
+		delete(types.ImplementedSporksMap, s.id)
+		var others []string
+		for _, o := range sporks {
+			if o != s && o.bound != nil && o.created {
+				others = append(others, h8(o.id))
+			}
+		}
+		sort.Strings(others)
+		impl := strings.Join(others, ",")
+		if impl == "" {
+			impl = "none"
+		}
+		from := s.enf
+		if from > 2 {
+			from -= 2
+		}
+		for h := from; h <= n.Height(); h++ {
+			m, _ := n.Chain().GetFrontierMomentumStore().GetMomentumByHeight(h)
+			if m == nil {
+				continue
+			}
+			st := n.Chain().GetMomentumStore(m.Identifier())
+			if st == nil {
+				continue
+			}
+			_, unimpl, err := chain.GotAllActiveSporksImplemented(st)
+			if err != nil {
+				fail("GotAllActiveSporksImplemented: %v", err)
+				break
+			}
+			var got []string
+			named := false
+			for _, u := range unimpl {
+				got = append(got, h8(u.Id))
+				if u.Id == s.id {
+					named = true
+				}
+			}
+			sort.Strings(got)
+			res := strings.Join(got, ",")
+			if res == "" {
+				res = "none"
+			}
+			c.Emit("S-unimpl %d %s | %s", h, impl, res)
+			should := h >= s.enf && h >= s.recorded
+			if h >= s.enf && h < s.recorded {
+				continue // the activation was confirmed later than its own enforcement height: not judged here
+			}
+			if named != should {
+				fail("C17: a binary that does not implement %s (enforced from height %d) gets the unimplemented-spork report %v on the store of height %d, expected %v — such a node must stop at every height from the enforcement height on, also when it starts on a ledger that is already past it", s.name, s.enf, named, h, should)
+				break
+			}
+			c.Hit(fmt.Sprintf("old-binary-report-%v", should))
+		}
+		types.ImplementedSporksMap[s.id] = true
+	}
 	c.Hit("scenario")
 	if id%8 == 0 || (withUnknown && id%2 == 0) {
 		sporkHaltInChild(c, id)
+	}
+	if id%5 == 2 {
+		sporkRestartInChild(c, id, []int{0, 1, 3, 7}[(id/5)%4])
 	}
 }
 
@@ -506,6 +574,88 @@ func sporkHaltInChild(c *Ctx, id int) {
 	if code == 0 || reached {
 		c.Fail("C17: a node that does not implement an enforced spork kept running past the enforcement height (child exit=%d, continued=%v)", code, reached)
 	}
+}
+
+// sporkRestartInChild: a ledger that is `past` momentums beyond the enforcement height of a spork, opened by a binary that
+// does not implement that spork (downgrade / old binary on a copied database): chain.Init must stop the process.
+func sporkRestartInChild(c *Ctx, id int, past int) {
+	out, err := exec.Command(os.Args[0], "spork-restart-child", fmt.Sprint(past)).CombinedOutput()
+	code := 0
+	if ee, ok := err.(*exec.ExitError); ok {
+		code = ee.ExitCode()
+	} else if err != nil {
+		c.Fail("spork run=%d: cannot run child: %v", id, err)
+		return
+	}
+	if strings.Contains(string(out), "CHILD-SETUP-FAILED") {
+		c.Hit("restart-child-setup-failed")
+		return
+	}
+	started := strings.Contains(string(out), "CHILD-STARTED-PAST-ENFORCEMENT")
+	detected := strings.Contains(string(out), "Detected an unimplemented spork")
+	c.Hit(fmt.Sprintf("restart-child-past-%d", past))
+	if code == 0 || started || !detected {
+		c.Fail("C17: a node that does not implement an enforced spork started on a ledger %d momentum(s) past the enforcement height (child exit=%d, started=%v, detected=%v)", past, code, started, detected)
+	}
+}
+
+func sporkRestartChild() {
+	past := 0
+	if len(os.Args) > 2 {
+		fmt.Sscan(os.Args[2], &past)
+	}
+	n := NewNode()
+	b, err := n.Submit(&nom.AccountBlock{BlockType: nom.BlockTypeUserSend, Address: g.Spork.Address, ToAddress: types.SporkContract,
+		Data: definition.ABISpork.PackMethodPanic(definition.SporkCreateMethodName, "spork-later-dropped", "verif")})
+	if err != nil {
+		fmt.Println("CHILD-SETUP-FAILED", err)
+		os.Exit(0)
+	}
+	types.ImplementedSporksMap[b.Hash] = true // this binary implements it …
+	for i := 0; i < 3; i++ {
+		n.Momentum()
+	}
+	if _, err := n.Submit(&nom.AccountBlock{BlockType: nom.BlockTypeUserSend, Address: g.Spork.Address, ToAddress: types.SporkContract,
+		Data: definition.ABISpork.PackMethodPanic(definition.SporkActivateMethodName, b.Hash)}); err != nil {
+		fmt.Println("CHILD-SETUP-FAILED", err)
+		os.Exit(0)
+	}
+	enf := uint64(0)
+	for i := 0; i < 40; i++ {
+		n.Momentum()
+		sps, _ := n.Chain().GetFrontierMomentumStore().GetAllDefinedSporks()
+		for _, sp := range sps {
+			if sp.Id == b.Hash && sp.Activated {
+				enf = sp.EnforcementHeight
+			}
+		}
+		if enf != 0 && n.Height() >= enf+uint64(past) {
+			break
+		}
+	}
+	if enf == 0 || n.Height() != enf+uint64(past) {
+		fmt.Println("CHILD-SETUP-FAILED enforcement height", enf, "height", n.Height())
+		os.Exit(0)
+	}
+	dir := n.T.dirs[0]
+	img, err := os.MkdirTemp("", "zvspork")
+	if err != nil {
+		fmt.Println("CHILD-SETUP-FAILED", err)
+		os.Exit(0)
+	}
+	safely(func() { n.Z.StopPanic() })
+	if err := copyDir(dir, img); err != nil {
+		fmt.Println("CHILD-SETUP-FAILED", err)
+		os.Exit(0)
+	}
+	defer os.RemoveAll(img)
+	// … the binary that opens the ledger now does not
+	delete(types.ImplementedSporksMap, b.Hash)
+	ch := chain.NewChain(db.NewLevelDBManager(img), genesis.NewGenesis(g.EmbeddedGenesis))
+	ierr := ch.Init()
+	fmt.Println("CHILD-STARTED-PAST-ENFORCEMENT height", enf+uint64(past), "enforcement", enf, "init error", ierr)
+	os.RemoveAll(img)
+	os.Exit(0)
 }
 
 func sporkHaltChild() {
